@@ -411,15 +411,15 @@ impl KeyValueStore {
             (mem, imm, version, state.visible_seq_no)
         };
         let mut cursors: Vec<Box<dyn Cursor>> = Vec::with_capacity(3);
-        let mut mem_scan = mem.range_scan(start_bound, end_bound, timestamp)?;
+        let mut mem_scan = mem.range_scan(start_bound, end_bound)?;
         mem_scan.seek_to_first()?;
         cursors.push(Box::new(mem_scan));
         if let Some(imm) = imm {
-            let mut imm_scan = imm.range_scan(start_bound, end_bound, timestamp)?;
+            let mut imm_scan = imm.range_scan(start_bound, end_bound)?;
             imm_scan.seek_to_first()?;
             cursors.push(Box::new(imm_scan));
         }
-        let version_scan = version.range_scan(start_bound, end_bound, timestamp)?;
+        let version_scan = version.range_scan(start_bound, end_bound)?;
         cursors.push(Box::new(version_scan));
         let cursor = MergingCursor::new(cursors)?;
         let cursor = PruningCursor::new(cursor, timestamp)?;
